@@ -1,7 +1,7 @@
 import Rcgen.Proofs.Canon
 import Rcgen.Proofs.ImportDecode
 import Rcgen.Model.CsrParse
-import Rcgen.Theorems.C06
+import Rcgen.Proofs.CsrAccept
 /-
   C07 (round-trip clause) and C06: what `CertificateSigningRequestParams::from_der` returns for a
   request rcgen itself generated.  The request is `signedCsr i sig`; strict decoding gives the
@@ -375,7 +375,7 @@ theorem parse_of_generated (p521 crypto : Bool) (verify : Bytes → Bytes → By
     r.key = i.subject := by
   obtain ⟨⟨info, algDer, sig', ci, spkiAlg, keyBits, oid, sigAlg, dn, exts, hsplit, hinfo, hparts,
     hverify, hoid, hsig, hkey, hsame, hname, hreq, happly, hraw, hspki⟩⟩ :=
-    Theorems.C06.accepted_steps _ _ _ _ _ h
+    CsrAccept.accepted_steps _ _ _ _ _ h
   have hsz2 : (encode (csrInfo i.p i.subject i.attrs)).length < 256 ^ 126 :=
     Nat.lt_of_le_of_lt (info_length_le i sig) hsize
   have hsz3 : (spkiDer i.subject).length < 256 ^ 126 :=
